@@ -75,11 +75,46 @@ func run(r *core.Run) {
 		r.Section(fmt.Sprintf("pool=%d decls k=%d", len(pool), k))
 		enumerate(r, pool, k)
 	}
+	// bound folding (export/bounds.go): every lower x upper bound pair x kind
+	r.Section("bound pairs folded by the exporter (lower x upper x kind)")
+	lowers := []string{"", ">0", ">=0", ">-1", ">=1", ">=-128", ">=-32768", ">=-2147483648", ">=-9223372036854775808", ">=0.0", ">0.5"}
+	uppers := []string{"", "<10", "<=255", "<256", "<=127", "<=32767", "<=65535", "<=2147483647", "<=4294967295", "<=9223372036854775807", "<=18446744073709551615", "<=255.0"}
+	kinds := []string{"int", "number", "float", ""}
+	for _, lo := range lowers {
+		for _, hi := range uppers {
+			for _, k := range kinds {
+				var parts []string
+				for _, p := range []string{k, lo, hi} {
+					if p != "" {
+						parts = append(parts, p)
+					}
+				}
+				if len(parts) < 2 {
+					continue
+				}
+				for _, order := range [][]string{parts, reverse(parts)} {
+					if !r.Mine() {
+						continue
+					}
+					c := kase{Program: "a: " + strings.Join(order, " & ") + "\n"}
+					r.Guard(c, func() { check(r, c) })
+				}
+			}
+		}
+	}
 	if r.Thorough() {
 		small := append(gen.Pool("small"), extras()...)
 		r.Section(fmt.Sprintf("pool=small+extras(%d) k=3", len(small)))
 		enumerate(r, small, 3)
 	}
+}
+
+func reverse(s []string) []string {
+	out := make([]string, len(s))
+	for i, x := range s {
+		out[len(s)-1-i] = x
+	}
+	return out
 }
 
 func enumerate(r *core.Run, pool []gen.Decl, k int) {
